@@ -19,6 +19,8 @@ type C02Scn struct {
 	Lists [][]string `json:"lists"` // tag list entries of each non-root logger
 	Root  int        `json:"root"`  // 0 no root configured, 1 root, 2 root that (illegally) lists tags
 	Sep   string     `json:"sep"`   // separator spelling between entries
+	Again bool       `json:"second_refresh,omitempty"` // after the judged Refresh succeeded it is called once more (and rejected): the bindings stay
+	Handles bool     `json:"handles,omitempty"`        // named handles are requested for the configured loggers before Refresh
 	Prior bool       `json:"prior_failed_refresh,omitempty"` // a Refresh that fails late (after its root logger was built) precedes the judged one
 }
 
@@ -141,6 +143,8 @@ func (c02) Gen(rt *rapid.T, thorough bool) any {
 	}
 	s.Sep = rapid.SampledFrom([]string{",", ", ", " , ", ",,"}).Draw(rt, "sep")
 	s.Prior = rapid.IntRange(0, 3).Draw(rt, "prior_failed") == 0
+	s.Again = rapid.IntRange(0, 3).Draw(rt, "again") == 0
+	s.Handles = rapid.IntRange(0, 2).Draw(rt, "handles") == 0
 	return s
 }
 
@@ -198,6 +202,12 @@ func (c02) Run(x *Exec, scn any) {
 	if s.Root == 2 {
 		wantErr = "root logger lists tags"
 	}
+	if s.Handles {
+		// a named handle for a logger changes nothing about the rules for its tag list
+		for i := range s.Lists {
+			log.GetLogger(fmt.Sprintf("lg%d", i))
+		}
+	}
 	cfg := spec.Render()
 	var err error
 	var pv any
@@ -240,6 +250,13 @@ func (c02) Run(x *Exec, scn any) {
 	if err != nil {
 		o.violate("refresh-error", "C02/refresh-error", "Refresh rejected a valid tag configuration: %v\nlists=%v", err, s.Lists)
 		return
+	}
+	if s.Again {
+		var err2 error
+		x.do("refresh-again", func() { call(func() { err2 = log.Refresh(spec.Render()) }) })
+		if err2 == nil {
+			o.violate("second-refresh-accepted", "C02/second-refresh-accepted", "a second Refresh without Destroy succeeded")
+		}
 	}
 	if got := log.GetAllTags(); len(got) != len(allNames) {
 		o.violate("tag-registry", "C02/tag-registry-changed", "registered %d tags, registry lists %d", len(allNames), len(got))
